@@ -30,6 +30,10 @@ class Prop(Bip32Prop):
             stub = self.stub_for_last_step(st, path, rng, ki=kstar)
             cases.append({"kind": "PubPriv", "start": st, "path": path, "stub": stub, "note": "child pubkey x has a leading zero byte"})
             cases.append({"kind": "PubPriv", "start": st, "path": path + [1], "stub": stub, "note": "parent pubkey x has a leading zero byte"})
+        # parents at the deepest levels the depth byte allows (child depth 254 and 255 are valid)
+        for depth, L in ((253, 1), (253, 2), (254, 1)):
+            st = self.start_prv(rng, self.rand_scalar(rng, "rand"), depth=depth)
+            cases.append({"kind": "PubPriv", "start": st, "path": [rng.choice([0, 7, H - 1]) for _ in range(L)], "note": "parent depth %d" % depth})
         # children with tiny scalars / scalar n-1
         for kstar in (1, 2, N - 1):
             st = self.start_prv(rng, self.rand_scalar(rng, "rand"))
